@@ -30,6 +30,15 @@ func traceMode(in *mbt.Input, res *mbt.Result) {
 		var events []map[string]any
 		rec := func(ev map[string]any) { emu.Lock(); events = append(events, ev); emu.Unlock() }
 		tickMs.Store(int64(tick))
+		// back-pressure up to the read loop: in a third of the runs the runner's output stream holds just one key-event
+		// batch (a stream smaller than the batch size can never fill a batch when there is no batch time-out: the read
+		// loop queues the placeholder before it adds the event - with the code's 1000 slots that needs MaxSize > 1000)
+		stream := 0
+		if in.CfgBool("SmallStreams", true) && rng.Intn(3) == 0 {
+			stream = maxSize + rng.Intn(2)
+			res.Count("runs_with_a_small_output_stream", 1)
+		}
+		streamSize.Store(int64(stream))
 		w, err := newWorld(Opts{Shape: sh, MaxSize: maxSize, Delay: time.Duration(delayMs) * time.Millisecond, HarnessTm: false, Gated: false,
 			Start: make([]int, sh.NSplits), Rng: rng, ReadMax: in.CfgInt("ReadMax", 4), JitterUs: in.CfgInt("JitterUs", 400), EOI: eoi, Record: rec, TickMs: tick})
 		if err != nil {
